@@ -366,7 +366,8 @@ class ScriptedFn:
         n = len(self.calls)
         j = self.script[n] if n < len(self.script) else rand_input(self.ret, self.r)
         v = decode(j)
-        self.calls.append({'args': list(a), 'kwargs': dict(k), 'result': v})
+        import pyvc_rt
+        self.calls.append({'args': list(a), 'kwargs': dict(k), 'result': v, 'seq': pyvc_rt.next_seq()})
         return v
 
 
@@ -400,7 +401,8 @@ def install_stub(st, sname, ret=None, inputs_json=None):
             key = f'stub:{sname}:{n}'
             j = (inputs_json or {}).get(key)
             res = decode(j) if j is not None else decode(rand_input(ret, rnd_stub))
-        rec = {'args': list(a), 'kwargs': dict(k), 'result': res}
+        import pyvc_rt
+        rec = {'args': list(a), 'kwargs': dict(k), 'result': res, 'seq': pyvc_rt.next_seq()}
         calls.append(rec)
         return rec['result']
     setattr(owner, attr, wrapper)
